@@ -49,7 +49,7 @@ ASSUMPTIONS = [
     "rationals equal to an int or float are kept out of hash-based operations (unique, frequencies, group_all, dict keys): that defect belongs to C09",
     "fuel/depth/timeout/crash/panic outcomes are inconclusive here (C14 judges them)",
 ]
-PLAN = {"quick": {"random": 30000}, "thorough": {"random": 960000}}
+PLAN = {"quick": {"random": 100000}, "thorough": {"random": 960000}}
 REG = dict(level="exploration", min_nontrivial=10000, min_nontrivial_thorough=100000,
            technique="runtime reference-model monitor: one-line Python definitions of ~70 sequence operations vs the real interpreter's structural result, fixed grid + seeded sweeps over input kind x profile x length 0..8 x parameter/function variants",
            claim="Every executed call returned the value (and sequence kind) the documented one-line definition gives, or raised where the definition has no value; sort/sort_on stability, unique first occurrences, kind preservation and the enumeration order of permutations/combinations/subsequences/^^/** are compared exactly. Exploration over small inputs, not a proof.",
